@@ -398,31 +398,68 @@ Definition pe_step (checked : bool) (pe : pe_data) (address : N) (first : bool) 
     end
   end.
 
-(* ---------- the documented procedure (pe-unwind-info's unwind_frame), the SPEC of C03 ---------- *)
-(* Returns Some (ra, regs) or None (failure); arithmetic is exact: None on wrap-around. *)
-Fixpoint ms_ops (u : uinfo) (ops : list uop) (rg : regs) (m : mem) : option (regs + (N * regs)) :=
+(* ---------- the documented procedure (x64 exception handling, "Unwind procedure"), the SPEC of C03 ---------- *)
+(* Returns Some (ra, regs) or None (failure); arithmetic is exact: None on wrap-around.
+   The frame base against which UWOP_SAVE_NONVOL / SAVE_XMM128 offsets are taken is fixed on entry:
+   rsp when the function has no frame register or has not established it yet, else fpreg - 16*offset. *)
+Definition is_setfp (o : uop) : bool := match o with USetFp => true | _ => false end.
+Definition established (u0 : uinfo) (offset : N) : bool :=
+  (match ui_chain u0 with Some _ => true | None => false end) || existsb is_setfp (ops_after offset true (ui_ops u0)).
+Definition base_of (u : uinfo) (rg : regs) : option N :=
+  match ui_fpreg u with
+  | Some r => let v := getr rg (pe_reg r) in if v <? ui_fpoff u then None else Some (v - ui_fpoff u)
+  | None => Some (sp rg)
+  end.
+Definition ms_frame_base (u0 : uinfo) (offset : N) (rg : regs) : option N :=
+  if established u0 offset then base_of u0 rg else Some (sp rg).
+
+Definition ms_op (fb : option N) (u : uinfo) (rg : regs) (m : mem) (o : uop) : opres :=
+  match o with
+  | USaveNonvol r off =>
+    match fb with
+    | None => OpPanic
+    | Some b =>
+      if b + off <? W64 then match m (b + off) with Some v => OpCont (setr rg (pe_reg r) v) | None => OpNoStack rg end
+      else OpPanic
+    end
+  | USaveXmm off =>
+    match fb with
+    | None => OpPanic
+    | Some b =>
+      if b + off <? W64 then
+        match m (b + off) with
+        | None => OpNoStack rg
+        | Some _ => if b + off + 8 <? W64 then (match m (b + off + 8) with Some _ => OpCont rg | None => OpNoStack rg end)
+                    else OpPanic
+        end
+      else OpPanic
+    end
+  | _ => resolve_operation u rg m o
+  end.
+
+Fixpoint ms_ops (fb : option N) (u : uinfo) (ops : list uop) (rg : regs) (m : mem) : option (regs + (N * regs)) :=
   match ops with
   | [] => Some (inl rg)
   | o :: t =>
-    match resolve_operation u rg m o with
-    | OpCont rg' => ms_ops u t rg' m
+    match ms_op fb u rg m o with
+    | OpCont rg' => ms_ops fb u t rg' m
     | OpBreak ra rg' => Some (inr (ra, rg'))
     | _ => None
     end
   end.
 
-Fixpoint ms_chain (fuel : nat) (pe : pe_data) (u : uinfo) (chained : bool) (offset : N) (rg : regs) (m : mem)
+Fixpoint ms_chain (fuel : nat) (fb : option N) (pe : pe_data) (u : uinfo) (chained : bool) (offset : N) (rg : regs) (m : mem)
   : option (regs + (N * regs)) :=
   match fuel with
   | O => None
   | S f =>
-    match ms_ops u (ops_after offset (negb chained) (ui_ops u)) rg m with
+    match ms_ops fb u (ops_after offset (negb chained) (ui_ops u)) rg m with
     | Some (inl rg') =>
       match ui_chain u with
       | None => Some (inl rg')
       | Some rva =>
         match ui_at (pe_uinfos pe) rva with
-        | UiOk u' => ms_chain f pe u' true offset rg' m
+        | UiOk u' => ms_chain f fb pe u' true offset rg' m
         | _ => None
         end
       end
@@ -436,28 +473,30 @@ Definition ms_final (rg : regs) (m : mem) : option (N * regs) :=
   | None => None
   end.
 
+(* the epilog the procedure sees at [address] (None: not in an epilog, or the bytes are not available) *)
+Definition epilog_at (pe : pe_data) (f : rtfunc) (u0 : uinfo) (address : N) : option (list einsn) :=
+  match pe_text pe with
+  | Some (lo, hi, bytes) =>
+    if (lo <=? address) && (address <? hi) && (address <=? rt_end f) then
+      eparse_sequence (firstn (N.to_nat (rt_end f - address)) (skipn (N.to_nat (address - lo)) bytes)) (ui_fpreg u0)
+    else None
+  | None => None
+  end.
+
 Definition ms_unwind (pe : pe_data) (address : N) (rg : regs) (m : mem) : option (N * regs) :=
   match pe_lookup (pe_funcs pe) address None with
   | None => ms_final rg m
   | Some f =>
     match ui_at (pe_uinfos pe) (rt_uinfo f) with
     | UiOk u0 =>
-      let epilog :=
-        match pe_text pe with
-        | Some (lo, hi, bytes) =>
-          if (lo <=? address) && (address <? hi) && (address <=? rt_end f) then
-            eparse_sequence (firstn (N.to_nat (rt_end f - address)) (skipn (N.to_nat (address - lo)) bytes)) (ui_fpreg u0)
-          else None
-        | None => None
-        end in
-      match epilog with
+      match epilog_at pe f u0 address with
       | Some insns =>
         match run_epilog false u0 insns rg m with
         | OpCont rg' => ms_final rg' m
         | _ => None
         end
       | None =>
-        match ms_chain (S (length (pe_uinfos pe))) pe u0 false (address - rt_begin f) rg m with
+        match ms_chain (S (length (pe_uinfos pe))) (ms_frame_base u0 (address - rt_begin f) rg) pe u0 false (address - rt_begin f) rg m with
         | Some (inl rg') => ms_final rg' m
         | Some (inr r) => Some r
         | None => None
